@@ -140,7 +140,7 @@ def gen_compound(rng, D, veto):
     return None
 
 
-def gen_op(rng, dump, profile="c01", compound=False, veto=False, badpos=False):
+def gen_op(rng, dump, profile="c01", compound=False, veto=False, badpos=False, ident_veto=False):
     if badpos and rng.random() < 0.03:
         # the shape flags of a port / cable (is_scalar, is_array): refused for a multi-item bundle, nothing may change
         kinds = [k for k in ("port", "cable") if dump[k]]
@@ -148,6 +148,8 @@ def gen_op(rng, dump, profile="c01", compound=False, veto=False, badpos=False):
             k = rng.choice(kinds)
             return {"t": "bundleFlag", "kind": k, "x": rng.choice(_ids(dump, k)), "attr": rng.choice(["is_scalar", "is_array"]), "v": rng.random() < 0.6}
     op = _gen_op(rng, dump, profile, compound, veto)
+    if not ident_veto:
+        op.pop("veto_ident", None)      # switches the parent to the EDIF policy: only where announcements are not compared
     # an INVALID position argument (not an integer): the call must be refused and leave everything as it was
     if badpos and op.get("pos") is not None and not op.get("veto") and not op.get("veto_ref") and rng.random() < 0.05:
         op["badpos"] = rng.choice(["float", "str", "list", "huge", "neghuge"])
